@@ -28,6 +28,10 @@ def make_spec(d, form):
         # an accepted kept function that calls the data function of the non-accepted package
         {"name": "KX", "module": main, "params": [], "body": [{"k": "ext", "fn": "xd"}]},
         {"name": "rootx", "module": main, "params": [], "body": [{"k": "keep", "path": "/u/kx", "fn": "KX", "args": []}]},
+        # ... and the path of that data function is also kept, by an accepted function, in the same evaluation
+        {"name": "G", "module": main, "params": [], "body": []},
+        {"name": "KXC", "module": main, "params": [], "body": [{"k": "ext", "fn": "xd"}, {"k": "keep", "path": "/x/d", "fn": "G", "args": []}]},
+        {"name": "rootxc", "module": main, "params": [], "body": [{"k": "keep", "path": "/u/kxc", "fn": "KXC", "args": []}]},
     ]
     ext = {"reexports": [[lib, "h"]] if form == "ext_facade" else [],
            "funcs": [{"name": "xf", "module": "util", "params": [], "body": []},
@@ -35,7 +39,7 @@ def make_spec(d, form):
            "vars": [{"name": "XV", "module": "util", "values": ["1", "2"]}]}
     return {"id": f"ACC/d{d}/{form}", "key": f"depth={d}|form={form}", "modules": [lib, main],
             "vars": [{"name": "V", "module": lib, "values": ["1", "2"]}], "funcs": funcs, "ext": ext,
-            "entries": {"eval_root": {"kind": "eval", "fn": "root"}, "eval_rootx": {"kind": "eval", "fn": "rootx"}},
+            "entries": {"eval_root": {"kind": "eval", "fn": "root"}, "eval_rootx": {"kind": "eval", "fn": "rootx"}, "eval_rootxc": {"kind": "eval", "fn": "rootxc"}},
             "eps": [{"id": "tag:h", "kind": "body_tag", "n": 2}, {"id": "V", "kind": "var_value", "n": 2},
                     {"id": "tag:xf", "kind": "ext_body", "n": 2}, {"id": "XV", "kind": "ext_var", "n": 2}]}
 
@@ -118,6 +122,11 @@ def one(world, d, k, n_accept, form, order="plain"):
                 bad("non_accepted_datafn_unnamed|nested", f"the error does not name the module: {str(rx.excobj)[:160]}")
             if "xd" in rx.log:
                 bad("non_accepted_datafn_ran|nested", f"the data function ran: {rx.log}")
+        rc, refc = prog.run("eval_rootxc")
+        if "xd" in rc.log:
+            bad("non_accepted_datafn_ran|path_also_kept", f"the data function of the non-accepted module ran untracked (its path is also kept by an accepted function): {rc.short()!r}, log {rc.log}")
+        elif rc.status == "ok":
+            bad("non_accepted_datafn_evaluated|path_also_kept", f"accepted: {rc.value!r}")
         import dds._api as api
         if api._eval_ctx is not None:
             bad("context_leaked", "dds still believes an evaluation is running after the refusal")
